@@ -39,7 +39,7 @@ func (c *Ctx) prelude(e *Enc) string {
 func (o *Oblig) BuildScript() string {
 	e := o.enc
 	var b strings.Builder
-	b.WriteString(e.ctx.prelude(e))
+	b.WriteString(e.preludeText)
 	for _, d := range e.decls {
 		b.WriteString(d)
 		b.WriteString("\n")
